@@ -180,6 +180,15 @@ class Interp:
         g = self.module_constant(name, fr)
         if g is not None:
             return g
+        if name.startswith('Lp'):
+            # PuLP constants (from pulp import *), read from the library's constants.py source (A3)
+            try:
+                from .pulpfacts import constants
+                v = constants()['names'].get(name)
+                if v is not None and isinstance(v, (str, int)):
+                    return C(v)
+            except Exception:
+                pass
         return S(name)
 
     def module_constant(self, name, fr):
@@ -225,6 +234,34 @@ class Interp:
                         cands = list(self.repo.funcs_by_name.get(fname, [])) + [c[fname] for c in self.repo.classes.values() if fname in c]
                         if cands and target not in cands:
                             return True      # conservatively: passed on to another repository function
+        return False
+
+    def really_mutates(self, target, param, seen=None):
+        """the callee (or a repository function it hands the parameter to) mutates the parameter in place"""
+        seen = seen or set()
+        if (target, param) in seen:
+            return False
+        seen.add((target, param))
+        for n in ast.walk(target.node):
+            if isinstance(n, ast.Call) and isinstance(n.func, ast.Attribute) and n.func.attr in ('append', 'extend', 'update', 'insert', 'pop', 'remove', 'sort', 'clear', 'reverse'):
+                v = n.func.value
+                while isinstance(v, ast.Subscript):
+                    v = v.value
+                if isinstance(v, ast.Name) and v.id == param:
+                    return True
+            if isinstance(n, (ast.Assign, ast.AugAssign)):
+                for t in (n.targets if isinstance(n, ast.Assign) else [n.target]):
+                    if isinstance(t, ast.Subscript) and isinstance(t.value, ast.Name) and t.value.id == param:
+                        return True
+            if isinstance(n, ast.Call):
+                for k, a in enumerate(n.args):
+                    if isinstance(a, ast.Name) and a.id == param:
+                        fname = n.func.attr if isinstance(n.func, ast.Attribute) else (n.func.id if isinstance(n.func, ast.Name) else None)
+                        cands = list(self.repo.funcs_by_name.get(fname, [])) + [c[fname] for c in self.repo.classes.values() if fname in c]
+                        for c in cands:
+                            ps = c.params[1:] if (c.cls and not c.is_static) else c.params
+                            if k < len(ps) and self.really_mutates(c, ps[k], seen):
+                                return True
         return False
 
     def deref(self, v):
@@ -297,6 +334,8 @@ class Interp:
             return ('ite', c, self.ex(n.body, fr), self.ex(n.orelse, fr))
         if isinstance(n, (ast.ListComp, ast.GeneratorExp, ast.SetComp)) and len(n.generators) == 1:
             dom0 = self.ex(n.generators[0].iter, fr)
+            if dom0[0] == 'const' and isinstance(dom0[1], str) and len(dom0[1]) <= 8:
+                dom0 = ('tuple', tuple(C(ch) for ch in dom0[1]))        # for ch in 'ab'
             if is_literal_seq(dom0):
                 out = []
                 ok = True
@@ -640,6 +679,11 @@ class Interp:
                 elif cv[0] in ('list', 'comp', 'cat', 'accum', 'upd', 'carried', 'prefix', 'dict', 'dictcomp') and self.callee_mutates(target, p):
                     self.frames[id(fr)] = fr
                     env[p] = ('ref', id(fr), an.id)
+            elif isinstance(an, ast.Attribute) and env.get(p, ('x',))[0] in ('list', 'comp', 'cat', 'accum', 'upd') and self.really_mutates(target, p):
+                # an attribute-held list handed to a callee that mutates it in place: the callee works on the object itself
+                base = self.ex(an.value, fr)
+                if base[0] in ('sym', 'attr', 'obj', 'bvar'):
+                    env[p] = A(base, an.attr)
         for k, v in kw:
             env[k] = v
         fr2 = Frame(target, env)
@@ -1026,6 +1070,8 @@ class Interp:
         dom = self.ex(s.iter, fr)
         if s.orelse:
             raise Unknown('for-else')
+        if dom[0] == 'const' and isinstance(dom[1], str) and len(dom[1]) <= 8:
+            dom = ('tuple', tuple(C(ch) for ch in dom[1]))
         if is_literal_seq(dom):
             return self.unroll(s, dom, fr)
         sp = splice_domain(dom)
@@ -1055,6 +1101,20 @@ class Interp:
             pass
         self.generic_loop(None, None, s, fr, dom=dom)
 
+    def only_mutated_in_place(self, name, stmts):
+        for st in stmts:
+            for n in ast.walk(st):
+                if isinstance(n, (ast.Assign, ast.AugAssign, ast.AnnAssign)):
+                    for t in (n.targets if isinstance(n, ast.Assign) else [n.target]):
+                        for x in ([t] if isinstance(t, ast.Name) else (t.elts if isinstance(t, (ast.Tuple, ast.List)) else [])):
+                            if isinstance(x, ast.Name) and x.id == name:
+                                return False
+                if isinstance(n, (ast.For, ast.comprehension)):
+                    for x in ast.walk(n.target):
+                        if isinstance(x, ast.Name) and x.id == name:
+                            return False
+        return True
+
     def sub_call(self, fn):
         out = []
         old = self.sink
@@ -1072,7 +1132,8 @@ class Interp:
         lid = next(self.ids)
         pre = dict(fr.env)
         mods = self.modified_names(s.body)
-        carried = [k for k in mods if k in pre and fr.defdepth.get(k, 0) <= fr.loopdepth]
+        carried = [k for k in mods if k in pre and fr.defdepth.get(k, 0) <= fr.loopdepth
+                   and not (pre[k][0] in ('attr', 'sym') and self.only_mutated_in_place(k, s.body))]   # a name for a heap object: its in-place updates are heap effects
         for k in carried:
             fr.env[k] = ('carried', k, lid)
         fr.loopdepth += 1
